@@ -14,7 +14,7 @@ mid,dst=sys.argv[1:3]
 ev=open(dst+'/eval.txt').read()
 notes=open(dst+'/NOTES.md').read() if __import__('os').path.exists(dst+'/NOTES.md') else ''
 checks={}
-for m in re.finditer(r'check (C\d+): exit=(\d+) (\d+) violations; keys:\s*(.*)',ev):
+for m in re.finditer(r'check (C\d+): exit=(\d+) (\d+) violations; keys:[ \t]*(.*)',ev):
     checks[m.group(1)]={"exit":int(m.group(2)),"violation_lines":int(m.group(3)),"keys":m.group(4).strip()}
 demo=re.search(r'demo: exit with change=(\d+), without=(\d+)',ev)
 meta={
